@@ -12,11 +12,14 @@ EXTENDS MiscEval, Json, IOUtils, SequencesExt
 
 CONSTANTS MaxLen,      \* longest list of attached models
           EvalAlg,     \* "persum" | "lastbroadcast"
-          AlgFams      \* families whose algorithm is EvalAlg
+          AlgFams,     \* families whose algorithm is EvalAlg
+          Extra        \* also generate the lists of MaxLen + 1 models (one shape pair, one condition set)
 VARIABLE dummy
 
 Fams == {"Nasa", "Nasa9", "Shomate"}
 Lists == UNION {{s \in [1..n -> Kinds] : \A i, j \in 1..n : s[i] = s[j] => i = j} : n \in 0..MaxLen}
+LongLists == IF Extra THEN {s \in [1..(MaxLen + 1) -> Kinds] : \A i, j \in 1..(MaxLen + 1) : s[i] = s[j] => i = j}
+             ELSE {}
 Long == [i \in 1..50 |-> <<1, 2, 4>>[(i % 3) + 1]]
 Shapes == {[ts |-> <<2>>, scalar |-> TRUE], [ts |-> <<1>>, scalar |-> FALSE],
            [ts |-> <<1, 4>>, scalar |-> FALSE], [ts |-> <<4, 2, 1>>, scalar |-> FALSE],
@@ -29,6 +32,10 @@ Inputs == {[fam |-> f, misc |-> m, none |-> FALSE, sh |-> s, c |-> c] :
               f \in Fams, m \in {l \in Lists : Len(l) <= 2}, s \in {x \in Shapes : Len(x.ts) > 3}, c \in Conds}
           \cup {[fam |-> f, misc |-> <<>>, none |-> TRUE, sh |-> s, c |-> c] :
               f \in Fams, s \in Shapes, c \in Conds}
+          \* "any number": lists one longer than MaxLen on one array shape and one scalar, one condition set
+          \cup {[fam |-> f, misc |-> m, none |-> FALSE, sh |-> s, c |-> [P4 |-> 16, xB |-> 1, xC |-> 2]] :
+              f \in Fams, m \in LongLists,
+              s \in {[ts |-> <<2>>, scalar |-> TRUE], [ts |-> <<4, 2, 1>>, scalar |-> FALSE]}}
 
 Case(i) == [fam |-> i.fam, misc |-> i.misc, none |-> i.none, ts |-> i.sh.ts, scalar |-> i.sh.scalar,
             P4 |-> i.c.P4, xB |-> i.c.xB, xC |-> i.c.xC,
